@@ -156,11 +156,9 @@ func (m *ServiceMap) syncTLSOptionsFromRootDomain() {
 
 			rootService := m.ServiceForHost(host)
 			if rootService != nil {
-				service.options.TLSEnabled = rootService.options.TLSEnabled
-				service.options.TLSRedirect = rootService.options.TLSRedirect
+				service.setTLSOptions(rootService.tlsOptions())
 			} else {
-				service.options.TLSEnabled = defaultServiceOptions.TLSEnabled
-				service.options.TLSRedirect = defaultServiceOptions.TLSRedirect
+				service.setTLSOptions(defaultServiceOptions.TLSEnabled, defaultServiceOptions.TLSRedirect)
 			}
 		}
 	}
